@@ -42,6 +42,10 @@ ARENAS = {
     "material2": ("k7/8/8/8/8/8/1p6/K1N5 w - - 0 1", 6, 8),
     "knight_dance": ("k7/8/8/8/8/8/8/K1N5 w - - 0 1", 7, 9),
     "mates": ("7k/8/5K2/6Q1/8/8/8/8 w - - 0 1", 4, 5),
+    # double push, castling as the very next ply, then the post-castling position recurs
+    "ep_then_castle_w": ("4k3/p7/8/8/8/8/8/4K2R b K - 0 1", 6, 7),
+    "ep_then_castle_b": ("r3k3/8/8/8/8/8/7P/4K3 w q - 0 1", 6, 7),
+    "ep_then_castle_q": ("4k3/7p/8/8/8/8/8/R3K3 b Q - 0 1", 6, 7),
 }
 
 
